@@ -100,6 +100,7 @@ func newSegment(path string, baseOffset, maxBytes int64, isNew bool, suffix stri
 	s.position = info.Size()
 	s.writer = log
 	s.reader = log
+	crashPoint("segment.log-created")
 	err = s.setupIndex()
 	return s, err
 }
@@ -336,6 +337,8 @@ func (s *segment) WriteMessageSet(ms []byte, entries []*entry) error {
 	if _, err := s.write(ms, entries); err != nil {
 		return err
 	}
+	crashPoint("append.log-written")
+	defer crashPoint("append.index-written")
 	return s.Index.writeEntries(entries)
 }
 
@@ -470,12 +473,15 @@ func (s *segment) Replace(old *segment) error {
 	if err := s.close(); err != nil {
 		return err
 	}
+	crashPoint("replace.before-renames")
 	if err := os.Rename(s.logPath(), old.logPath()); err != nil {
 		return err
 	}
+	crashPoint("replace.between-renames")
 	if err := os.Rename(s.indexPath(), old.indexPath()); err != nil {
 		return err
 	}
+	crashPoint("replace.after-renames")
 	s.suffix = ""
 	log, err := os.OpenFile(s.logPath(), os.O_RDWR|os.O_CREATE|os.O_APPEND, 0644)
 	if err != nil {
@@ -582,6 +588,7 @@ func (s *segment) Delete() error {
 			return err
 		}
 	}
+	crashPoint("segment-delete.between-log-and-index")
 	if exists(s.Index.Name()) {
 		if err := os.Remove(s.Index.Name()); err != nil {
 			return err
